@@ -27,7 +27,7 @@ DIES there (a write: after a prefix went out; any other primitive: before it tak
 effect -- dying after primitive i is dying before primitive i+1).
 The buffering / gzip layer between the Python statements and the raw writes is a
 parameter: the list of raw writes it issues (including what it re-issues while
-closing after a failure) is part of the schedule (`awrites`, `jwrites`).
+closing after a failure) is part of the schedule (`awrites`; for the journal text: `jwrite`, `jretry`).
 Core Lean only.
 -/
 import Wpull.Py.Basic
